@@ -84,12 +84,22 @@ type Builder struct {
 	WinOverride *[2]int64
 	// Origin is the anchor origin embedded in the create's suffix data and in recover requests.
 	Origin interface{}
+	// OriginPerShape: every recover carries its own anchor origin "https://origin-<p>.example.com" (p = the shape's
+	// content token) instead of Origin.
+	OriginPerShape bool
 	// Extra patches are appended to every delta this builder produces (used to make requests version-specific).
 	Extra []patch.Patch
 }
 
 func (b *Builder) patches(dl string, p int) []patch.Patch {
 	return append(DeltaPatches(dl, p), b.Extra...)
+}
+
+func (b *Builder) recoverOrigin(sh Shape) interface{} {
+	if b.OriginPerShape {
+		return fmt.Sprintf("https://origin-%d.example.com", sh.P)
+	}
+	return b.Origin
 }
 
 func (b *Builder) window(win string) (int64, int64) {
@@ -234,7 +244,7 @@ func (b *Builder) Request(sh Shape) ([]byte, error) {
 			from, until = Window("late")
 		}
 		sd := &model.RecoverSignedDataModel{RecoveryKey: emb.JWK, DeltaHash: dh, RecoveryCommitment: ks.C(sh.Nrc),
-			AnchorOrigin: b.Origin, AnchorFrom: from, AnchorUntil: until}
+			AnchorOrigin: b.recoverOrigin(sh), AnchorFrom: from, AnchorUntil: until}
 		compact, err := SignCompact(canon(sd), signer)
 		if err != nil {
 			return nil, err
